@@ -20,6 +20,14 @@ func verifDir() string {
 	return "/verif"
 }
 
+// outDir is where evidence and replay files are written (the self-test redirects it).
+func outDir() string {
+	if d := os.Getenv("VERIF_OUT"); d != "" {
+		return d
+	}
+	return verifDir()
+}
+
 type knownFinding struct {
 	Property   string `json:"property"`
 	Status     string `json:"status"` // open | fixed
@@ -202,7 +210,7 @@ func sanitize(s string) string {
 
 func report(run *propertyRun, C *Contracts) int {
 	known := loadKnownFindings()
-	vdir := verifDir()
+	vdir := outDir()
 	total, discharged := 0, 0
 	var solverTime float64
 	bySolver := map[string]int{}
